@@ -126,13 +126,13 @@ func (b *vBroker) do(method, path string, hdr map[string]string, body []byte, re
 // ---- wire-level actors ------------------------------------------------------
 
 type pollSpec struct {
-	Sid      string  `json:"sid"`
-	Type     string  `json:"type"`
-	NAT      string  `json:"nat"` // "" = field absent
-	Clients  int     `json:"clients"`
-	Pattern  *string `json:"pattern"` // nil = legacy (no field)
-	Remote   string  `json:"remote,omitempty"`
-	RawBody  []byte  `json:"-"`
+	Sid     string  `json:"sid"`
+	Type    string  `json:"type"`
+	NAT     string  `json:"nat"` // "" = field absent
+	Clients int     `json:"clients"`
+	Pattern *string `json:"pattern"` // nil = legacy (no field)
+	Remote  string  `json:"remote,omitempty"`
+	RawBody []byte  `json:"-"`
 }
 
 type pollResult struct {
